@@ -7,17 +7,29 @@ from vcheck import (Infra, Tally, build_harness, finish, load_known, model_check
 
 
 def devsets(pid):
+    """(Known, AsBuilt): deviations listed for this property / for any property (not fixed)."""
     known, _ = load_known(pid)
     devs = set()
     for k in known:
         for d in (k.get("deviations") or [k.get("deviation")]):
             devs.add(d)
-    return devs
+    allk = set()
+    path = os.path.join(os.path.dirname(os.path.dirname(os.path.abspath(__file__))), "known_findings.jsonl")
+    if os.path.exists(path):
+        for r in read_ndjson(path):
+            if not r.get("fixed"):
+                for d in (r.get("deviations") or [r.get("deviation")]):
+                    allk.add(d)
+    return devs, allk | devs
 
 
 def other_items(rec):
     o = rec.get("other", [])
     return list(o.values()) if isinstance(o, dict) else list(o)
+
+
+RSLQ_DEVS = {"UntilEntryIdExclusive", "UntilNotAppliedAtBeforeAnchor", "BeforeAnchorBelowUntilId"}
+WRITER_DEVS = {"StaleTipNumbering", "FirstCommitNotRolledBack"}
 
 
 # ---------------------------------------------------------------------------
@@ -37,8 +49,9 @@ def c04(ctx):
     write_ndjson(scn_path, scns)
     trace = os.path.join(ctx.scratch, "trace.ndjson")
     run_vh(ctx, ["rslquery", "-scn", scn_path, "-out", trace, "-seed", ctx.seed, "-n", nq])
-    known = devsets("C04")
-    cls = validate_trace(ctx, "Trace_RSLQuery", trace, {"Known": known, "AsBuilt": known})
+    known, asbuilt = devsets("C04")
+    asbuilt = asbuilt & RSLQ_DEVS
+    cls = validate_trace(ctx, "Trace_RSLQuery", trace, {"Known": known, "AsBuilt": asbuilt | known})
     tally = Tally(ctx)
     for rec in cls:
         tally.add_many("conform", rec["conform"])
@@ -104,7 +117,61 @@ def c14(ctx):
                                "PEM message decoding is opaque: only equality of the decoded message is checked"])
 
 
+# ---------------------------------------------------------------------------
+# C03 / C17  recording operations: sequential histories and concurrent writers
+
+def _writers(ctx, pid, modes, limit):
+    known, asbuilt = devsets(pid)
+    asbuilt = (asbuilt & WRITER_DEVS) | known
+    scns = []
+    for mode, maxseq in modes:
+        consts = {"Mode": '"%s"' % mode, "MaxSeq": maxseq, "EmitOn": False, "Dev": set()}
+        model_check(ctx, "MC_Writers", dict(constants=consts, invariants=["Inv", "SeqBranch"], properties=["AppendOnly"],
+                                            view="View", constraints=["Emit"]), timeout=7200)
+        # schedules of the as-built machine, one per distinct terminal state
+        consts2 = dict(consts, EmitOn=True, Dev=asbuilt)
+        r = run_tlc(ctx, "MC_Writers", dict(constants=consts2, view="View", constraints=["Emit"]), timeout=7200)
+        if r.error or r.violated:
+            raise Infra("scenario emission failed: %s" % (r.error or r.violated))
+        scns += [x for x in r.records if x.get("t") == "SCN"]
+    if not scns:
+        raise Infra("TLC emitted no scenarios")
+    scn_path = os.path.join(ctx.scratch, "scn.ndjson")
+    write_ndjson(scn_path, scns)
+    trace = os.path.join(ctx.scratch, "trace.ndjson")
+    run_vh(ctx, ["writers", "-scn", scn_path, "-out", trace, "-seed", ctx.seed, "-n", limit])
+    cls = validate_trace(ctx, "Trace_Writers", trace, {"Known": known, "AsBuilt": asbuilt})
+    lines = {r["id"]: r for r in read_ndjson(trace)}
+    tally = Tally(ctx)
+    notfollowed = 0
+    for rec in cls:
+        r = rec["r"]
+        line = lines[rec["id"]]
+        item = {"id": rec["id"], "why": r.get("why"), "sched": line["scn"]["sched"], "jobs": line["scn"]["jobs"],
+                "init": line["scn"]["init"], "obs": line["obs"]} if r["cls"] != "conform" else None
+        tally.add(r["cls"], item, dev=r.get("dev"), nontrivial_key=rec["id"] if rec["n"] > 0 else None)
+        notfollowed += 0 if rec["followed"] else 1
+    ctx.coverage_extra.update({"scenarios_emitted": len(scns), "schedules_not_followed_by_code": notfollowed})
+    samples = [{"jobs": scns[0]["jobs"], "sched": scns[0]["sched"], "expected_chain": scns[0]["chain"]}]
+    return finish(ctx, tally, samples=samples, traces=len(cls),
+                  assumptions=["writers run on the harness' in-memory Git-format store shared by all writers; gates are the "
+                               "reference reads/writes seen through gitstore.Storer plus the point between tip read and "
+                               "compare-and-set inside Commit",
+                               "one schedule per distinct terminal state of the model is replayed (seeded sample of %d)" % limit])
+
+
+def c03(ctx):
+    return _writers(ctx, "C03", [("seq", 3 if ctx.quick() else 4)], 4000 if ctx.quick() else 60000)
+
+
+def c17(ctx):
+    modes = [("conc2", 0)] if ctx.quick() else [("conc2", 0), ("conc3", 0)]
+    return _writers(ctx, "C17", modes, 6000 if ctx.quick() else 80000)
+
+
 CHECKS = {
+    "C03": c03,
+    "C17": c17,
     "C14": c14,
     "C04": c04,
 }
